@@ -355,6 +355,9 @@ pub struct Sim {
     pub tx_tap: Option<Box<dyn FnMut(&mut Sim, usize, usize, &Snapshot, &quinn_proto::Transmit, &[u8])>>,
     /// C07: per-destination ledger with the harness' own notion of validated addresses (`crate::ledger`)
     pub ledger: crate::ledger::DestLedger,
+    /// C07: per connection, which peer addresses the HARNESS has seen validated (`crate::addrval`); arms the 3x oracle of
+    /// `on_transmit` instead of the connection's own `path.validated`
+    pub av: crate::addrval::AddrVal,
     /// `IncomingPolicy::Hold`: (node, time received, attempt) waiting for the scenario's decision
     pub held: Vec<(usize, u64, Incoming)>,
     /// when Some: one record per datagram handed to an endpoint (scenario `multi`, C09 routing oracles)
@@ -474,6 +477,7 @@ impl Sim {
             timeout_tap: None,
             tx_tap: None,
             ledger: Default::default(),
+            av: Default::default(),
             held: Vec::new(),
             route_log: None,
         }
@@ -502,7 +506,9 @@ impl Sim {
         let server = self.nodes[SERVER].addr;
         let (ch, conn) = self.nodes[CLIENT].ep.connect(now, cfg, server, "localhost").expect("connect");
         self.ledger.trust(CLIENT, server);
+        self.av.client(CLIENT, ch.0);
         let mut conn = conn;
+        crate::addrval::AddrVal::enable(&mut conn);
         if self.record_plain {
             conn.verif_txlog_enable();
         }
@@ -533,6 +539,9 @@ impl Sim {
             origin,
             genuine: true,
         };
+        if origin < self.nodes.len() {
+            self.av.on_wire(origin, &d.data);
+        }
         if self.keep_history && self.history.len() < 4000 {
             self.history.push(d.clone());
             self.history_ch.push(self.cur_ch);
@@ -662,6 +671,8 @@ impl Sim {
     pub fn handle_datagram(&mut self, node: usize, d: Dgram) {
         let now = self.t();
         let mut buf = Vec::new();
+        // C07: does this very datagram present a token the endpoint issued for its source address? (before `on_rx`)
+        let token_cause = self.ledger.initial_carries_retry_token(node, d.from, &d.data) || self.av.initial_carries_new_token(node, d.from, &d.data);
         self.ledger.on_rx(node, d.from, &d.data);
         let ibb = self.nodes[node].ep.incoming_buffer_bytes();
         let ev = self.nodes[node].ep.handle(now, d.from, None, d.ecn, BytesMut::from(&d.data[..]), &mut buf);
@@ -688,9 +699,10 @@ impl Sim {
                 if let Some(nc) = self.nodes[node].conns.get_mut(&ch.0) {
                     nc.events.push_back((ev, d.data.len(), d.from));
                     self.ledger.routed(node, ch.0, &d.data);
+                    self.av.routed(node, ch.0, &d.data);
                 }
             }
-            Some(DatagramEvent::NewConnection(inc)) => self.on_incoming(node, inc),
+            Some(DatagramEvent::NewConnection(inc)) => self.on_incoming(node, inc, d.from, token_cause),
             Some(DatagramEvent::Response(t)) => {
                 self.nodes[node].ep_tx += 1;
                 self.trace.push(Rec::EpTx { node, at: self.now, size: t.size, dst: t.destination });
@@ -719,7 +731,7 @@ impl Sim {
         }
     }
 
-    fn on_incoming(&mut self, node: usize, inc: Incoming) {
+    fn on_incoming(&mut self, node: usize, inc: Incoming, inc_from: SocketAddr, token_cause: bool) {
         let now = self.t();
         let mut buf = Vec::new();
         match self.nodes[node].policy {
@@ -752,6 +764,15 @@ impl Sim {
         match self.nodes[node].ep.accept(inc, now, &mut buf, sc) {
             Ok((ch, conn)) => {
                 let mut conn = conn;
+                self.av.accepted(node, ch.0, inc_from, token_cause);
+                crate::addrval::AddrVal::enable(&mut conn);
+                if self.model_trace && self.model_ops.len() < 400_000 {
+                    // a connection is born validated exactly when its first Initial carried a token this endpoint issued
+                    // for the address (Retry packet seen on the wire / NEW_TOKEN frame in the plaintext log): harness facts
+                    let a = conn.verif_snapshot();
+                    self.model_ops.push(format!("amp new {}", token_cause as u8));
+                    self.model_impl.push(format!("{} {}", a.path.validated as u8, a.path.total_sent));
+                }
                 if self.record_plain {
                     conn.verif_txlog_enable();
                 }
@@ -834,7 +855,12 @@ impl Sim {
             let authed_before = self.nodes[node].conns[&ch].conn.verif_snapshot().total_authed_packets;
             self.nodes[node].conns.get_mut(&ch).unwrap().conn.handle_event(ev);
             let authed_after = self.nodes[node].conns[&ch].conn.verif_snapshot().total_authed_packets;
-            self.ledger.handled(node, ch, from, authed_after > authed_before);
+            let rx_fact = self.av.handled(node, ch, from);
+            // "a Handshake packet was accepted": from the SENDER's record of the packet (crate::addrval) wherever senders are
+            // recorded; the receiver's own counter of authenticated packets only for connections a scenario made itself
+            // without switching the records on
+            let accepted_hs = if self.av.recording() { rx_fact.handshake } else { authed_after > authed_before };
+            self.ledger.handled(node, ch, from, accepted_hs);
             if let Some(mut f) = self.rx_tap.take() {
                 f(self, node, ch, len, true);
                 self.rx_tap = Some(f);
@@ -918,12 +944,19 @@ impl Sim {
                 if self.model_ops.len() < 400_000 {
                     // a datagram from an address other than the (resulting) path's is not credited to it
                     let op = if from == a.path.remote { "rx" } else { "foreign" };
+                    // validation is PREDICTED from causes the harness derived itself (crate::addrval): `hs` a Handshake-space
+                    // packet the peer built is in this datagram, `pr` a PATH_RESPONSE of the peer in it echoes a PATH_CHALLENGE
+                    // this connection sent to the path's address
+                    let hs = rx_fact.handshake;
+                    let pr = self.av.answers_challenge_to(node, ch, &rx_fact, &b.path.remote);
                     self.model_ops.push(format!(
-                        "amp {op} {len} {} {} {} {}",
-                        migrated as u8, b.path.validated as u8, b.path.total_sent, b.path.total_recvd
+                        "amp {op} {len} {} {} {} {} {} {}",
+                        migrated as u8, b.path.validated as u8, b.path.total_sent, b.path.total_recvd, hs as u8, pr as u8
                     ));
-                    // an unvalidated path may become validated by any datagram (observed, not predicted)
-                    let v = if !migrated && !b.path.validated { "V".to_string() } else { (a.path.validated as u8).to_string() };
+                    // with a cause the receiver may or may not have used it (the property permits validation, it does not
+                    // demand it): "V"; without one the flag must stay as it was
+                    let exact = migrated || b.path.validated || !(hs || pr);
+                    let v = if exact { (a.path.validated as u8).to_string() } else { "V".to_string() };
                     self.model_impl.push(format!("{v} {} {}", a.path.total_sent, a.path.total_recvd));
                 }
             }
@@ -1094,6 +1127,8 @@ impl Sim {
     /// Oracles on every transmit (sizes, amplification, silence after drain).
     fn on_transmit(&mut self, node: usize, ch: usize, before: &Snapshot, t: &quinn_proto::Transmit, _buf: &[u8]) {
         let nowoff = self.now;
+        // C07: the sender's own record of the packets just built, read without consuming it
+        self.av.on_tx(node, ch, &self.nodes[node].conns[&ch].conn, t, _buf);
         if let Some(mut f) = self.tx_tap.take() {
             f(self, node, ch, before, t, _buf);
             self.tx_tap = Some(f);
@@ -1102,6 +1137,11 @@ impl Sim {
             for l in self.nodes[node].conns.get_mut(&ch).unwrap().conn.verif_take_txlog() {
                 self.plain.push(format!("n{node} c{ch} {l}"));
             }
+        }
+        {
+            // whatever of the records nobody asked for is dropped here (they describe this transmit only)
+            let c = &mut self.nodes[node].conns.get_mut(&ch).unwrap().conn;
+            let _ = (c.verif_take_txlog(), c.verif_take_txpkts(), c.verif_take_new_tokens());
         }
         if self.rx_tap.is_some() {
             for (space, pn, n) in self.nodes[node].conns.get_mut(&ch).unwrap().conn.verif_take_injected() {
@@ -1119,7 +1159,7 @@ impl Sim {
             obs.last_tx_at = Some(nowoff);
             obs.max_dgram = obs.max_dgram.max(seg.min(t.size));
         }
-        if before.state == "drained" {
+        if before.state == "drained" || self.nodes[node].conns[&ch].obs.drained_events > 0 {
             self.nodes[node].conns.get_mut(&ch).unwrap().obs.tx_after_drained += 1;
             self.fail("output-after-drained", format!("node {node} conn {ch} transmitted {} bytes after it was drained", t.size));
         }
@@ -1152,7 +1192,8 @@ impl Sim {
         // C13: no datagram above the peer's max_udp_payload_size once its transport parameters are known
         if let Some(rules) = self.mtu_rules {
             let cap = rules[node].peer_max_udp;
-            if cap > 0 && before.state == "established" && seg.min(t.size) > cap {
+            let connected = self.nodes[node].conns[&ch].obs.connected;
+            if cap > 0 && (before.state == "established" || connected) && seg.min(t.size) > cap {
                 self.fail("mtu-datagram-exceeds-peer-max-udp-payload", format!("node {node} conn {ch}: datagram of {} bytes > the peer's max_udp_payload_size {cap} (current_mtu {}, path remote {})", seg.min(t.size), before.path.current_mtu, before.path.remote));
             }
         }
@@ -1186,8 +1227,11 @@ impl Sim {
             }
         }
         self.check_dest_ledger(node, ch, before, t);
-        // C07: anti-amplification towards an unvalidated address
-        if self.check_amp && !before.path.validated && t.destination == before.path.remote {
+        // C07: anti-amplification towards an unvalidated address. ARMED BY THE HARNESS' OWN FACTS (crate::addrval, the Retry
+        // tokens of crate::ledger), never by the connection's `path.validated`: a path that is born or becomes validated
+        // without a cause the property lists is exactly what must be caught
+        let harness_validated = self.av.is_validated(node, ch, &t.destination);
+        if self.check_amp && !harness_validated && t.destination == before.path.remote {
             let (sb, rb) = match self.nodes[node].amp_epoch.get(&ch) {
                 Some((a, sb, rb)) if *a == t.destination => (*sb, *rb),
                 _ => (0, 0),
@@ -1197,6 +1241,8 @@ impl Sim {
             let mut off = 0;
             while off < t.size {
                 let len = seg.min(t.size - off);
+                self.av.judged += 1;
+                self.av.judged_code_validated += before.path.validated as u64;
                 // "completing one datagram once any budget remains"
                 if sent >= 3 * recvd {
                     self.fail(
